@@ -1091,9 +1091,14 @@ impl Simulator {
     /// - Setting R7 to the original PC (return address)
     /// - Adding information to the frame stack
     pub fn call_subroutine(&mut self, addr: u16) -> Result<(), SimErr> {
-        self.reg_file[R7].set(self.pc);
-        self.frame_stack.push_frame(self.prefetch_pc(), addr, FrameType::Subroutine, &self.reg_file, &self.mem);
-        self.set_pc(Word::new_init(addr), true)
+        let ret_addr = self.pc;
+        let caller_addr = self.prefetch_pc();
+
+        // The jump can be refused (strict mode): only a call that is entered links R7 and gets a frame.
+        self.set_pc(Word::new_init(addr), true)?;
+        self.reg_file[R7].set(ret_addr);
+        self.frame_stack.push_frame(caller_addr, addr, FrameType::Subroutine, &self.reg_file, &self.mem);
+        Ok(())
     }
 
     /// Calls a trap or interrupt, adding information to the frame stack
